@@ -6,8 +6,14 @@ ID=$1; CRATE=$2; TIER=${3:-quick}; WT=${4:-/tmp/wt-$ID}; NAME=${5:-$ID}
 cd /verif
 [ -z "$(git -C /repo status --short)" ] || { echo "/repo not clean"; exit 2; }
 git -C /repo apply $WT/mutation.diff || exit 2
+# the run on the mutated tree rewrites evidence/<id>.json: keep the unchanged tree's record aside and
+# put it back, so that what gets committed always describes /repo as it is
+KEEP=$(mktemp -d); cp evidence/$ID.json $KEEP/ 2>/dev/null
 ./check $ID $TIER > /tmp/seed-$NAME-check.log 2>&1; RC=$?
 git -C /repo checkout -- .
+cp evidence/$ID.json seeded-evidence-$NAME.json 2>/dev/null && mkdir -p seeded/$NAME && mv seeded-evidence-$NAME.json seeded/$NAME/evidence_on_mutant.json
+if [ -f $KEEP/$ID.json ]; then cp $KEEP/$ID.json evidence/$ID.json; else rm -f evidence/$ID.json; fi
+rm -rf $KEEP
 tail -4 /tmp/seed-$NAME-check.log
 DEMO=demo_$(echo $NAME | tr 'A-Z-' 'a-z_')
 CONF=$(lib/confirm_seed.sh $WT $CRATE $DEMO "" | tail -1)
